@@ -5,7 +5,9 @@ import (
 	"bytes"
 	"errors"
 	"fmt"
+	"hash/crc32"
 	"io"
+	"math/rand/v2"
 	"reflect"
 	"strings"
 	"unsafe"
@@ -234,6 +236,71 @@ func flipBit(b []byte, off int, bit uint) []byte {
 	return o
 }
 
+// c07schemaTwins: two valid files for one Go type whose header schemas differ (field order) but agree in length
+// and CRC-32; read one after the other in one process, each is decoded by its own schema.
+func c07schemaTwins(c *core.Ctx, r *rand.Rand) bool {
+	type ab struct {
+		A int64 `json:"a"`
+		B int64 `json:"b"`
+	}
+	mk := func(first, second, doc string) string {
+		return `{"type":"record","name":"twin","doc":"` + doc + `","fields":[{"name":"` + first + `","type":"long"},{"name":"` + second + `","type":"long"}]}`
+	}
+	sa := mk("a", "b", "0000000000000000")
+	target := crc32.ChecksumIEEE([]byte(sa))
+	var sb string
+	for try := 0; try < 5000 && sb == ""; try++ {
+		cand := []byte(mk("b", "a", fmt.Sprintf("%012dXXXX", try)))
+		pos := bytes.Index(cand, []byte("XXXX"))
+		if !forgeCRC32(cand, pos, target) {
+			continue
+		}
+		okBytes := true
+		for _, ch := range cand[pos : pos+4] {
+			if ch < 0x20 || ch > 0x7e || ch == '"' || ch == '\\' {
+				okBytes = false
+			}
+		}
+		if okBytes {
+			sb = string(cand)
+		}
+	}
+	if sb == "" || len(sb) != len(sa) || crc32.ChecksumIEEE([]byte(sb)) != target {
+		c.Count("schema-twins-not-constructed", 1)
+		return true
+	}
+	ra, e1 := refavro.ParseSchema([]byte(sa))
+	rb, e2 := refavro.ParseSchema([]byte(sb))
+	if e1 != nil || e2 != nil {
+		c.Violate("harness", fmt.Sprint(e1, e2), nil)
+		return false
+	}
+	codec := []string{"null", "deflate", "snappy"}[r.IntN(3)]
+	recA := func(a, b int64) any { return &refavro.Record{Fields: []any{a, b}} }
+	fa, e1 := refavro.WriteContainer([]byte(sa), ra, [][]any{{recA(10, 20), recA(30, 40)}}, nil, refavro.WriteOpts{Codec: codec})
+	fb, e2 := refavro.WriteContainer([]byte(sb), rb, [][]any{{recA(20, 10), recA(40, 30)}}, nil, refavro.WriteOpts{Codec: codec}) // b first
+	if e1 != nil || e2 != nil {
+		c.Violate("harness", fmt.Sprint(e1, e2), nil)
+		return false
+	}
+	for round := 0; round < 2; round++ {
+		for k, f := range [][]byte{fa, fb, fa} {
+			var got []ab
+			err := avro.ReadFile(bytes.NewReader(f), ab{}, func(val unsafe.Pointer, rb *avro.ResourceBank) error {
+				got = append(got, *(*ab)(val))
+				return nil
+			})
+			c.Eval(1)
+			if err != nil || len(got) != 2 || got[0] != (ab{10, 20}) || got[1] != (ab{30, 40}) {
+				c.Violate("intact-file", fmt.Sprintf("file %d of a sequence of valid files whose schemas differ in field order but agree in length and CRC-32: err=%v records=%+v, the file holds {10 20} {30 40}", k, err, got), nil)
+				return false
+			}
+		}
+	}
+	c.Count("schema-twin-sequences", 1)
+	return true
+}
+
 // c07compressible: valid files whose blocks inflate by three orders of magnitude.
 func c07compressible(c *core.Ctx, i int) bool {
 	sch, _ := refavro.ParseSchema([]byte(`{"type":"record","name":"z","fields":[{"name":"b","type":"bytes"},{"name":"n","type":"long"}]}`))
@@ -339,6 +406,11 @@ func runC07(c *core.Ctx, i int) {
 	// 0c. very compressible multi-MiB blocks (deflate reaches ratios above 1000:1)
 	if i%64 == 9 {
 		if !c07compressible(c, i) {
+			return
+		}
+	}
+	if i%64 == 17 {
+		if !c07schemaTwins(c, c.Rand(i, 41)) {
 			return
 		}
 	}
@@ -581,11 +653,18 @@ func c08big(c *core.Ctx, i int) {
 		return &refavro.Record{Fields: []any{b, int64(n)}}
 	}
 	bigN := 70000 + r.IntN(330000)
+	if i%64 == 31 {
+		bigN = 4<<20 + 4096 + r.IntN(1<<20) // a stored block of more than 4 MiB (incompressible)
+		c.Count("multi-MiB-block-files", 1)
+	}
 	blocks := [][]any{{mk(100), mk(3000)}, {mk(bigN / 2), mk(bigN / 2)}, {mk(500)}}
 	if r.IntN(2) == 0 {
 		blocks = [][]any{{mk(bigN)}, {mk(100)}}
 	}
 	codec := []string{"null", "deflate", "snappy"}[r.IntN(3)]
+	if i%64 == 31 {
+		codec = []string{"deflate", "snappy", "null"}[(i/64)%3]
+	}
 	file, err := refavro.WriteContainer([]byte(sch.JSON()), sch, blocks, nil, refavro.WriteOpts{Codec: codec})
 	if err != nil {
 		c.Violate("harness", err.Error(), nil)
@@ -616,7 +695,12 @@ func c08big(c *core.Ctx, i int) {
 		add(b.PayloadOff)
 		add(b.PayloadEnd)
 		add(b.End)
-		for p := b.PayloadOff + 4096; p < b.PayloadEnd; p += 4096 {
+		add(b.PayloadEnd + 8) // inside the marker
+		step := 4096
+		if b.PayloadEnd-b.PayloadOff > 1<<20 {
+			step = 1 << 18
+		}
+		for p := b.PayloadOff + step; p < b.PayloadEnd; p += step {
 			cuts[p-1], cuts[p], cuts[p+1] = true, true, true
 		}
 	}
@@ -733,6 +817,15 @@ func runC08(c *core.Ctx, i int) {
 	if sampled {
 		c.Count("files-with-sampled-cuts", 1)
 	}
+	// within the count/length varints of a block header and the first and last bytes of the marker
+	atBoundary := func(cut int) bool {
+		for _, b := range cont.Blocks {
+			if (cut >= b.Start && cut <= b.PayloadOff+1) || (cut >= b.PayloadEnd-1 && cut <= b.End) {
+				return true
+			}
+		}
+		return cut >= cont.HeaderEnd-17 && cut <= cont.HeaderEnd
+	}
 	for cut := 0; cut <= len(cf.file); cut++ {
 		if !near(cut) {
 			continue
@@ -749,8 +842,8 @@ func runC08(c *core.Ctx, i int) {
 		}
 		prefix := cf.file[:cut]
 		for shape := 0; shape < 5; shape++ {
-			if (maxRecs >= 64 || sampled) && shape > 0 && shape != 1+cut%4 {
-				continue // long files: bytes.Reader at every cut, the other four shapes in rotation
+			if (maxRecs >= 64 || sampled) && shape > 0 && shape != 1+cut%4 && !atBoundary(cut) {
+				continue // long files: bytes.Reader at every cut, the other four shapes in rotation (all five around block headers)
 			}
 			var rd avro.Reader
 			switch shape {
